@@ -117,6 +117,23 @@ def get_match_sites(d):
     return [(bi, b.call_term(bi, t)) for bi, t in b.calls(r'^automaton::get_match$')]
 
 
+def mat_slots(d):
+    """the published-match slot of the non-overlapping driver: the Option<Match> local carried around the search loop (a local
+    of that type that merely names a prefilter verdict before the loop is not the slot)"""
+    b = d.b
+    ml = user_locals_of_type(b, r'^core::option::Option<util::search::Match>$')
+    if len(ml) > 1 and d.header is not None:
+        try:
+            from acverif.sym import Sym
+            mods, _ = Sym(d.cx.facts, b).loop_mods(d.header)
+            carried = [l for l in ml if l in mods]
+            if carried:
+                return carried
+        except Exception:
+            pass
+    return ml
+
+
 def publications(d):
     """stores of Some(x) into the published match slot: [(block, idx, x_term)] ; and None-stores"""
     b = d.b
@@ -131,7 +148,7 @@ def publications(d):
                 else:
                     some.append((bi, si, val))
     else:
-        ml = user_locals_of_type(b, r'^core::option::Option<util::search::Match>$')
+        ml = mat_slots(d)
         for l in ml:
             for bi, si, t in var_defs_terms(b, l):
                 if is_agg(t, r'Option$', 'Some'):
@@ -472,6 +489,8 @@ def r10_3(cx):
         # cursor definitions
         for db, di, val in d.cursor_defs():
             v = expand_vars(b, val, keep=('at', 'state', 'input', 'pre', 'span'))
+            if peel_all(v) == d.cur:
+                continue        # cursor = cursor (a helper handing the unchanged offset back): no definition
             kind = None
             if d.input_call(v, 'start'):
                 kind = 'init'
@@ -494,6 +513,12 @@ def r10_3(cx):
                                 kind = 'candidate(cursor..end)'
                             elif is_call(sp, r'Span') or is_agg(sp, r'Span$'):
                                 kind = None
+            if kind is not None and not d.over:
+                # where: before the walk the cursor is the search start or the first candidate; inside it only moves forward
+                inloop = db in d.loop
+                if (inloop and kind in ('init', 'candidate(get_span)')) or (not inloop and kind in ('plus1', 'candidate(cursor..end)')):
+                    cx.report('R10.3', b, 'cursor-def:%s' % kind, False, 'cursor definition `%s` %s the search loop (a byte of the span is skipped or revisited)' % (kind, 'inside' if inloop else 'before'), line_of(b, db, di))
+                    continue
             cx.report('R10.3', b, 'cursor-def:%s' % (kind or 'other'), kind is not None,
                       'cursor definition: %s' % kind if kind else 'cursor is assigned %s (allowed: input.start(), +1, a prefilter candidate for get_span() or for cursor..input.end())' % tstr(v, 160), line_of(b, db, di))
     g = cx.body('automaton::get_match')
@@ -527,6 +552,16 @@ def special_gates(d):
     return sp, dd, mm
 
 
+def verdict_gates(d):
+    """branches on the in-loop prefilter answer `pre.find_in(..).into_option()`, however the answer is named on the way"""
+    b = d.b
+
+    def is_verdict(x):
+        y = peel_all(expand_vars(b, x, keep=lambda v: v == d.cur or (v[0] == 'v' and 1 <= v[2] <= b.j['arg_count'])))
+        return is_call(y, r'Candidate::into_option$') and is_call(peel_all(y[2][0]), r'Prefilter::find_in$')
+    return discr_gates(b, is_verdict)
+
+
 def r05_6(cx):
     for path in (FIND_IMP, OVER_IMP):
         d = Driver(cx, path)
@@ -550,12 +585,20 @@ def r05_6(cx):
                 def ret_of(tg):
                     r = b.reach(tg, cut_blocks=[d.header] if d.header is not None else [])
                     return [b.rvalue_term(st['r'], 0, y) for y in r for st in b.blocks[y]['stmts'] if st['k'] == 'assign' and st['p']['l'] == 0 and not st['p']['pr']]
+                def opt_of(v):
+                    # the Option handed to Ok(..), looked through a named intermediate
+                    if not is_agg(v, r'Result$', 'Ok'):
+                        return None
+                    o = v[3]['0']
+                    if is_var(o):
+                        o = peel_all(expand_vars(b, o, keep=lambda y: y[0] == 'v' and 1 <= y[2] <= b.j['arg_count']))
+                    return o
                 rn = ret_of(none_t) if none_t is not None else []
                 rm = ret_of(match_t) if match_t is not None else []
-                okn = len(rn) == 1 and is_agg(rn[0], r'Result$', 'Ok') and is_agg(rn[0][3]['0'], r'Option$', 'None')
+                okn = len(rn) == 1 and is_agg(rn[0], r'Result$', 'Ok') and is_agg(opt_of(rn[0]), r'Option$', 'None')
                 okmm = False
-                if len(rm) == 1 and is_agg(rm[0], r'Result$', 'Ok') and is_agg(rm[0][3]['0'], r'Option$', 'Some'):
-                    mv = expand_vars(b, rm[0][3]['0'][3]['0'], keep=('pre', 'input'))
+                if len(rm) == 1 and is_agg(rm[0], r'Result$', 'Ok') and is_agg(opt_of(rm[0]), r'Option$', 'Some'):
+                    mv = expand_vars(b, opt_of(rm[0])[3]['0'], keep=('pre', 'input'))
                     okmm = mv[0] == 'f' and mv[1][0] == 'dc' and mv[1][2] == 'Match' and is_call(mv[1][1], r'Prefilter::find_in$')
                 okposs = poss_t is not None and d.header in b.reach(poss_t)
                 okm = okn and okmm and okposs
@@ -574,7 +617,7 @@ def r05_6(cx):
             cx.report('R05.6', b, 'in-loop-guard', ok1 and ok2 and ok3, 'the prefilter is consulted only in a special, non-dead, non-match (i.e. start) state' if ok1 and ok2 and ok3 else
                       'the prefilter can be consulted outside a start state (special=%s, not-dead=%s, not-match=%s)' % (ok1, ok2, ok3), line_of(b, bi))
             # result handling: None -> return no match; Some(i): cursor = i only if i > cursor, skipping the +1
-            og = discr_gates(b, lambda x: is_call(x, r'Candidate::into_option$') and is_call(x[2][0], r'Prefilter::find_in$'))
+            og = verdict_gates(d)
             okr = False
             if og:
                 gb, x, arms, oth = og[0]
@@ -854,7 +897,7 @@ def r14_3(cx):
     cx.report('R14.3', b, 'flag-uses', not bad and len(eg) >= 2, 'earliest is used only as a branch condition (%d branches)' % len(eg) if not bad and len(eg) >= 2 else 'earliest flows into data/calls at blocks %s or has fewer than 2 branch uses' % bad)
     some, none = publications(d)
     pub_blocks = {bi for bi, si, x in some}
-    ml = user_locals_of_type(b, r'^core::option::Option<util::search::Match>$')
+    ml = mat_slots(d)
     MAT = ('v', b.locals[ml[0]]['names'][0], ml[0]) if ml else None
     for i, (gb, cond, te, fe) in enumerate(eg):
         # true edge: straight to return Ok(mat) with no side effects
@@ -899,7 +942,7 @@ def r01_5(cx):
     d = Driver(cx, FIND_IMP)
     b = d.b
     some, none = publications(d)
-    ml = user_locals_of_type(b, r'^core::option::Option<util::search::Match>$')
+    ml = mat_slots(d)
     MAT = ('v', b.locals[ml[0]]['names'][0], ml[0]) if ml else None
     okn = len(none) == 1 and none[0][0] not in d.loop and b.dominates(none[0][0], d.header)
     cx.report('R01.5', b, 'mat-init', okn, 'mat starts as None before the loop' if okn else 'mat is not initialised to None exactly once before the loop')
@@ -921,6 +964,9 @@ def r01_5(cx):
     for bi, v in rets:
         if is_agg(v, r'Result$', 'Ok'):
             p = v[3]['0']
+            if is_var(p) and p != MAT:
+                # a named intermediate (e.g. the verdict a pre-scan helper handed back): what it holds on this path
+                p = peel_all(expand_vars(b, p, keep=lambda y: y == MAT or (y[0] == 'v' and 1 <= y[2] <= b.j['arg_count'])))
             if p == MAT:
                 kinds['mat'] += 1
             elif is_agg(p, r'Option$', 'None'):
@@ -1238,7 +1284,7 @@ def r03_5(cx):
     pubs = {bi for bi, si, x in some}
     sp, dd, mm = special_gates(d)
     dead_t = {tg for g in dd for _, tg in g[2]}
-    og = discr_gates(b, lambda x: is_call(x, r'Candidate::into_option$'))
+    og = verdict_gates(d)
     none_t = set()
     for gb, x, arms, oth in og:
         none_t.add(arms.get(0, oth))
